@@ -1,7 +1,180 @@
 import ConfModel.Driver.Common
+import ConfModel.Model.TracerSlots
+import ConfModel.Model.Builder
+import ConfModel.Spec.Handoff
 namespace ConfModel.Driver.C16
-open Lean ConfModel.Driver
+open Lean ConfModel.Driver ConfModel ConfModel.Handoff
 
-def handle : Handler := fun op _inp _impl => bad ("C16: unknown op " ++ op)
+/-! ### Tracer slots -/
+
+def parseSlotOp (s : String) : Option TracerSlots.Op :=
+  match s.splitOn ":" with
+  | ["i", n] => some (.init n)
+  | ["x", n] => some (.clear n)
+  | ["c", n, t] => t.toNat?.map (.complete n)
+  | ["a", w, n] => w.toNat?.map (fun w => .await w n)
+  | ["j", w] => w.toNat?.map .join
+  | ["p", w] => w.toNat?.map .peek
+  | ["k", w] => w.toNat?.map .ctx
+  | _ => none
+
+def parseSlotOps (l : List String) : Option (List TracerSlots.Op) := l.mapM parseSlotOp
+
+def renderObs : TracerSlots.Obs → String
+  | .none => ""
+  | .err => "err"
+  | .trace t => s!"t{t}"
+  | .waiting => "waiting"
+  | .ctxErr => "ctx"
+  | .busy => "busy"
+  | .idle => "idle"
+
+def renderSets (l : List (List TracerSlots.Obs)) : List (List String) := l.map (·.map renderObs)
+
+/-- every observed outcome is one of the admissible ones at its position -/
+def within (obs : List String) (sets : List (List String)) : Bool :=
+  obs.length == sets.length && (obs.zip sets).all (fun p => p.2.contains p.1)
+
+/-- a nil `*Tracer`: nothing is stored, every Await fails at once -/
+def nilObs (ops : List TracerSlots.Op) : List (List TracerSlots.Obs) :=
+  ops.map fun
+    | .await _ _ => [.err]
+    | .join _ | .peek _ | .ctx _ => [.idle]
+    | _ => [.none]
+
+def slotsNontrivial (ops : List TracerSlots.Op) : Bool :=
+  ops.any (fun o => match o with | .complete _ _ => true | _ => false) &&
+  ops.any (fun o => match o with | .await _ _ => true | _ => false)
+
+def firstMismatch (obs : List String) (sets : List (List String)) : String :=
+  match ((obs.zip sets).zipIdx.find? (fun p => !(p.1.2.contains p.1.1))) with
+  | some p => s!"position {p.2}: observed '{p.1.1}', allowed {p.1.2}"
+  | none => s!"{obs.length} observations for {sets.length} operations"
+
+/-! ### builder -/
+
+def parseKind : String → Option Builder.Kind
+  | "reqData" => some .reqData | "reqEnd" => some .reqEnd | "reqEndErr" => some .reqEndErr
+  | "respStart" => some .respStart | "respErr" => some .respErr | "respData" => some .respData
+  | "respEos" => some .respEos | "respEnd" => some .respEnd | "respEndErr" => some .respEndErr
+  | "cancel" => some .cancel | _ => none
+
+def kindName : Builder.Kind → String
+  | .reqData => "reqData" | .reqEnd => "reqEnd" | .reqEndErr => "reqEndErr" | .respStart => "respStart"
+  | .respErr => "respErr" | .respData => "respData" | .respEos => "respEos" | .respEnd => "respEnd"
+  | .respEndErr => "respEndErr" | .cancel => "cancel"
+
+/-- ops of one thread; the id of the event at position `i` is `base + i` -/
+def parseBuilderOps (base : Nat) (l : List String) : Option (List Builder.Op) :=
+  l.zipIdx.mapM fun p => if p.1 == "build" then some Builder.Op.build else (parseKind p.1).map (fun k => Builder.Op.add k (base + p.2))
+
+def renderItem (it : Builder.Item) : String :=
+  kindName it.kind ++ "#" ++ toString it.id ++ (match it.index with | some i => "@" ++ toString i | none => "")
+
+def renderDeliveries (d : List (List Builder.Item)) : List (List String) := d.map (·.map renderItem)
+
+def implCompletions (impl : Json) : List (List String) := (arr (field impl "completions")).map strList
+
+/-- kind of a rendered middleware event (the canonical strings of `VerifBodyEvents`) -/
+def kindOfRendered (e : String) : Builder.Kind :=
+  if e.startsWith "qd:" then .reqData
+  else if e == "qe:nil" then .reqEnd
+  else if e.startsWith "qe:" then .reqEndErr
+  else if e == "P" then .respStart
+  else if e == "PX" then .respErr
+  else if e.startsWith "pd:" then .respData
+  else if e.startsWith "ps:" then .respEos
+  else if e == "pe:nil" then .respEnd
+  else if e.startsWith "pe:" then .respEndErr
+  else .cancel
+
+/-- the traces the builder model delivers when a `RequestCanceled` is added at any point of the
+event sequence `ref` of the uncancelled session (the cancel goroutine is not ordered with the
+body events) -/
+def cancelOutcomes (ref : List String) (build : Bool) : List (List String) :=
+  let adds := ref.zipIdx.map (fun p => Builder.Op.add (kindOfRendered p.1) p.2)
+  let n := ref.length
+  let arr := ref.toArray
+  (List.range (n + 1)).map fun k =>
+    let ops := adds.take k ++ [Builder.Op.add .cancel n] ++ adds.drop k ++ (if build then [Builder.Op.build] else [])
+    match (Builder.exec (Builder.init true) ops).2 with
+    | [d] => d.map (fun it => if it.id == n then "QC" else arr[it.id]?.getD "?")
+    | _ => ["<not exactly one delivery>"]
+
+def cancelVerdict (impl : Json) (build : Bool) : Verdict :=
+  let ref := (strList (field impl "ref")).filter (· != "Q")
+  let got := (strList (field impl "got")).filter (· != "Q")
+  let completions := nat (field impl "completions")
+  let set := cancelOutcomes ref build
+  -- the property itself: one delivery; nothing recorded after the finishing event; what is
+  -- recorded is what happened before it, in order
+  let cut := (got.takeWhile (· != "QC"))
+  let holds := completions == 1 && (got == ref || (got == cut ++ ["QC"] && ref.take cut.length == cut))
+  { agree := completions == 1 && set.contains got, holds := holds, nontrivial := got != ref,
+    model := toJson set.length, cls := if got == ref then "cancel-too-late" else "cancelled",
+    why := if holds then "" else s!"{completions} deliveries; trace {got}; uncancelled session {ref}" }
+
+def handle : Handler := fun op inp impl =>
+  if !(isNull (field impl "panic")) then
+    { agree := false, holds := false, why := "panic: " ++ str (field impl "panic") } else
+  match op with
+  | "slots" =>
+    match parseSlotOps (strList (field inp "ops")) with
+    | none => bad "unparsable slot op"
+    | some ops =>
+      let isNil := bool (field inp "nil")
+      let obs := strList (field impl "obs")
+      let model := renderSets (if isNil then nilObs ops else (TracerSlots.exec TracerSlots.init ops).2)
+      let spec := renderSets (if isNil then nilObs ops else specObs ops)
+      let holds := within obs spec
+      { agree := within obs model && model == spec, holds := holds,
+        nontrivial := slotsNontrivial ops, model := toJson model,
+        cls := if obs.contains "waiting" then "blocked" else "",
+        why := if !holds then "await outcome: " ++ firstMismatch obs spec
+               else if model != spec then "driver: model and history specification differ" else "" }
+  | "stressSlots" =>
+    let threads := (arr (field inp "threads")).map strList
+    match parseSlotOps (strList (field inp "setup")), threads.mapM parseSlotOps, parseSlotOps (strList (field inp "after")) with
+    | some setup, some ths, some after =>
+      let obsS := strList (field impl "setup")
+      let obsA := strList (field impl "after")
+      let total := ths.foldl (fun a t => a + t.length) 0
+      let lins := TracerSlots.interleavings (total + 1) ths
+      let fits (sets : List (List String)) : Bool :=
+        within obsS (sets.take setup.length) && within obsA (sets.drop (setup.length + total))
+      let okModel := lins.any fun l => fits (renderSets (TracerSlots.exec TracerSlots.init (setup ++ l ++ after)).2)
+      let okSpec := lins.any fun l => fits (renderSets (specObs (setup ++ l ++ after)))
+      { agree := okModel, holds := okSpec, nontrivial := lins.length > 1,
+        model := toJson lins.length,
+        why := if okSpec then "" else s!"outcome setup={obsS} after={obsA} is produced by none of the {lins.length} linearisations" }
+    | _, _, _ => bad "unparsable slot op"
+  | "cancelrt" => cancelVerdict impl false
+  | "cancelhandler" => cancelVerdict impl true
+  | "builder" =>
+    match parseBuilderOps 0 (strList (field inp "ops")) with
+    | none => bad "unparsable builder op"
+    | some ops =>
+      let named := bool (field inp "named")
+      let got := implCompletions impl
+      let model := renderDeliveries (Builder.exec (Builder.init named) ops).2
+      let spec := renderDeliveries (deliveries named ops)
+      let holds := got == spec
+      { agree := got == model, holds := holds, nontrivial := named && ops.any isCloser && ops.length > 1,
+        model := toJson model,
+        why := if holds then "" else s!"collector got {got}, the operation must deliver {spec}" }
+  | "stressBuilder" =>
+    let threads := (arr (field inp "threads")).map strList
+    match threads.zipIdx.mapM (fun p => parseBuilderOps (p.2 * 100) p.1) with
+    | none => bad "unparsable builder op"
+    | some ths =>
+      let named := bool (field inp "named")
+      let got := implCompletions impl
+      let total := ths.foldl (fun a t => a + t.length) 0
+      let lins := TracerSlots.interleavings (total + 1) ths
+      let okModel := lins.any fun l => renderDeliveries (Builder.exec (Builder.init named) l).2 == got
+      let okSpec := lins.any fun l => renderDeliveries (deliveries named l) == got
+      { agree := okModel, holds := okSpec, nontrivial := lins.length > 1, model := toJson lins.length,
+        why := if okSpec then "" else s!"collector got {got}: no linearisation of the threads delivers that" }
+  | _ => bad ("C16: unknown op " ++ op)
 
 end ConfModel.Driver.C16
